@@ -218,7 +218,10 @@ def r_axis(c):
             m.loc("pytato.array", ed), "expand_dims does not validate its axes")
     tr = m.func("pytato.array.transpose")
     ts = ast.unparse(tr)
-    c.check("len(axes) != a.ndim" in ts and "set(axes) != set(range(a.ndim))" in ts
+    from pta.pat import has as _has
+    ap_, xp_ = tr.args.args[0].arg, tr.args.args[1].arg
+    c.check(_has(tr, f"len({xp_}) != {ap_}.ndim")
+            and _has(tr, f"set({xp_}) != set(range({ap_}.ndim))")
             and ts.count("raise ValueError") >= 2, "R03-AXIS", "array.transpose",
             "axes-is-a-permutation", m.loc("pytato.array", tr),
             "transpose does not check that axes is a permutation of range(ndim)")
